@@ -1918,9 +1918,10 @@ func (f *fragment) mergeBlock(id int, data []pairSet) (sets, clears []pairSet, e
 	sets = make([]pairSet, len(data)+1)
 	clears = make([]pairSet, len(data)+1)
 
-	// Limit upper row/column pair.
-	maxRowID := uint64(id+1) * HashBlockSize
-	maxColumnID := uint64(ShardWidth)
+	// Limit upper row/column pair. The limit is inclusive: the last pair of
+	// the block is its last row with the highest column of the shard.
+	maxRowID := uint64(id+1)*HashBlockSize - 1
+	maxColumnID := uint64(ShardWidth - 1)
 
 	// Create buffered iterator for local block.
 	itrs := make([]*bufIterator, 1, len(data)+1)
